@@ -382,10 +382,10 @@ pub fn run(ctx: &'static Ctx) -> (&'static str, Value, Vec<&'static str>) {
             st
         })
         .reduce(Stats::new, Stats::merge);
-    eprintln!("[c19] mapping done {:.2}s", ctx.elapsed());
+    
     let mut s2 = Stats::new();
     check_estimate_static(ctx, &mut s2);
-    eprintln!("[c19] static done {:.2}s", ctx.elapsed());
+    
     // rolling window: stateright over histories
     let configs: Vec<(u8, usize)> = if thorough { vec![(1, 12), (2, 6), (3, 5)] } else { vec![(1, 11), (2, 5), (3, 4)] };
     let mut states = 0u64;
@@ -402,7 +402,7 @@ pub fn run(ctx: &'static Ctx) -> (&'static str, Value, Vec<&'static str>) {
         if u != expected {
             machinery(&format!("C19 window model state count {u} != {expected}"));
         }
-        eprintln!("[c19] window model keys={keys} depth={depth} done {:.2}s", ctx.elapsed());
+        
         reports.push(json!({"keys": keys, "depth": depth, "unique_states": u, "transitions": tr.load(Ordering::Relaxed)}));
         states += u;
         transitions += tr.load(Ordering::Relaxed);
